@@ -161,3 +161,24 @@ def model_over_dumps(ctx, dumps, fmt, label, timeout=1800):
     if skipped:
         ctx.note("%s: json.dump failed for %d of %d documents; those are judged without the model" % (label, skipped, len(dumps)))
     return out
+
+
+def escape_json_strings(text, rng, p=0.35):
+    """the same JSON document with some characters INSIDE string literals (keys and values) written as \\uXXXX escapes:
+    serde_json must hand the same strings to the program"""
+    import re as _re
+
+    def esc(m):
+        body = m.group(1)
+        out, i = [], 0
+        while i < len(body):
+            ch = body[i]
+            if ch == "\\":
+                j = i + (6 if body[i + 1:i + 2] == "u" else 2)
+                out.append(body[i:j])
+                i = j
+                continue
+            out.append("\\u%04x" % ord(ch) if ord(ch) < 0x10000 and rng.random() < p else ch)
+            i += 1
+        return '"' + "".join(out) + '"'
+    return _re.sub(r'"((?:[^"\\]|\\.)*)"', esc, text)
